@@ -45,6 +45,7 @@ TrueOnly == {TRUE}
 FOnly == {"F"}
 TF == {"T", "F"}
 UpStQ == {"keep", "running", "completed"}
+UpStQ2 == {"keep", "completed"}
 UpStT == {"keep", "running", "completed", "cancelled"}
 UpIoQ == {"keep", "set"}
 UpIoT == {"keep", "set", "clear"}
